@@ -1,5 +1,5 @@
 #!/venv/bin/python
-"""dev helper: run a check's run() and print violations aggregated by (direction, reason)"""
+"""dev helper: run a check's run() and print violations aggregated by signature (prefix)"""
 import os, sys, importlib, collections, warnings
 os.environ.setdefault("PYTHONHASHSEED","0")
 warnings.filterwarnings("ignore")
@@ -13,10 +13,11 @@ for v in res["violations"]:
     k = tuple(s[:3]) if len(sys.argv)<=3 else tuple(s)
     e = g.setdefault(k, [0, v, set()])
     e[0]+=1
-    e[2].add(str(s[3]))
-    if len(v.get("text") or "") < len(e[1].get("text") or ""): e[1]=v
-for k,(n,v,owners) in sorted(g.items(), key=lambda x:-x[1][0]):
-    print(n, k, sorted(owners)[:8], '|', repr((v.get("text") or "")[-100:]), '|', str(v.get("observed"))[:90])
+    e[2].add(str(s[3]) if len(s)>3 else '')
+    w = v.get("text") or v.get("witness") or ""
+    if len(w) < len(e[1].get("text") or e[1].get("witness") or ""): e[1]=v
+for k,(n,v,owners) in sorted(g.items(), key=lambda x:-x[1][0])[:int(os.environ.get("TOP","30"))]:
+    print(n, k, sorted(owners)[:8], '|', repr((v.get("text") or v.get("witness") or "")[-150:]), '|', str(v.get("observed"))[:150])
 c = res["coverage"]
-print({k:c[k] for k in c if k in ("states","transitions","traces_validated_against_impl","distinct_nontrivial","impl_verdicts","reference_verdicts","caps_hit")})
-print("harness", res.get("harness_errors")[:5])
+print({k:c[k] for k in c if k in ("states","transitions","traces_validated_against_impl","distinct_nontrivial","impl_verdicts","reference_verdicts","caps_hit","per_operation")})
+print("signatures", len(g)); print("harness", res.get("harness_errors")[:5])
